@@ -65,7 +65,8 @@ theorem propShape_ns {ok u} {p : Node} (hp : propShape p = true) (hg : goodW ok 
     have := hsimple _ _ rfl
     simp at hg
     simp [simple_ns hg this]
-  · simp [nsL_atoms _ hp]
+  · simp only [Bool.and_eq_true] at hp
+    simp [nsL_atoms _ hp.2]
   · cases hp
 
 theorem splitSpec_same (ok u) (left : Node) (s : St) (hg : goodW ok u left = true) (hn : ns left = 0) :
